@@ -75,6 +75,9 @@ func (s *Service) proxyToSingleEndpoint(ctx context.Context, w http.ResponseWrit
 		s.RecordFailure(ctx, endpoint, time.Since(stats.StartTime), err)
 		return fmt.Errorf("failed to create proxy request: %w", err)
 	}
+	// the URL was rendered and parsed again: a raw '#' in the client's query would be taken for a
+	// fragment and dropped. Pass the query on verbatim.
+	proxyReq.URL.RawQuery, proxyReq.URL.Fragment, proxyReq.URL.RawFragment = targetURL.RawQuery, "", ""
 
 	rlog.Debug("created proxy request")
 
